@@ -37,7 +37,7 @@ STAR_NAMES = ("L1", "L2")
 FUNC_BODY = {"def", "defh2", "defdoc1", "defdoc2", "defdocp3", "defh2doc2", "adef", "init"}
 CLASS_BODY = {"cls", "clsh3", "clsdoc1", "clsdoc2"}
 DOC_OF = {"defdoc1": "doc1", "defdoc2": "doc2", "defdocp3": "docp3", "defh2doc2": "doc2", "clsdoc1": "doc1", "clsdoc2": "doc2"}
-TWO_NAMES = {"tup", "chain", "semi", "semis2", "imp2", "from2", "fromp4", "fromb2"}
+TWO_NAMES = {"chain", "semi", "semis2", "imp2", "from2", "fromp4", "fromb2"}
 
 
 def item_names(i: int, form: str) -> list:
